@@ -172,7 +172,9 @@ impl ObjectReceiver {
     fn push_to_block(&mut self, pkt: &alc::AlcPkt, now: std::time::SystemTime) -> Result<()> {
         self.push_to_block2(pkt, now)?;
         if pkt.lct.close_object {
-            if self.state == State::Receiving {
+            // Without FDT the object cannot be written yet, even when all its blocks are
+            // decoded: keep it until the FDT is received (or the object times out)
+            if self.state == State::Receiving && self.fdt_instance_id.is_some() {
                 self.error("No more packet for this object", now, true);
             }
         }
@@ -600,7 +602,8 @@ impl ObjectReceiver {
             return;
         }
 
-        while let Some(item) = self.cache.pop() {
+        // Replay in reception order, the packet with the close-object flag is the last one
+        for item in std::mem::take(&mut self.cache) {
             #[cfg(feature = "ypo_flute_verif")]
             crate::verif::tick("objectreceiver::push_from_cache");
             let pkt = item.to_pkt();
